@@ -255,6 +255,30 @@ BYTES_RES = ['\xe9+', '(a|b)*', '\xe9', '.[^\u03c0]', '[^\u03c0]+', '[^\u03c0]*'
 BYTES_ALPHA = 'a\xe9\u03c0\u03c1\u20ac\U0001F600'
 
 
+_SUBM = {}
+
+
+def impl_regex_sub(rx, enc):
+    import cpppo
+    from cpppo import automata as A, dotdict
+    m = _SUBM.get(rx)
+    if m is None:
+        m = _SUBM[rx] = A.regex_bytes(initial=rx, context='r', regex_context='sub', terminal=True)
+    source = cpppo.chainable(enc); d = dotdict()
+    try:
+        with m as mm:
+            for mch, sta in mm.run(source=source, data=d):
+                pass
+            term = mm.terminal
+    except A.NonTerminal:
+        return ('nonterminal',)
+    except Exception as e:
+        return ('other', type(e).__name__)
+    if not term:
+        return ('nonterminal',)
+    return ('ok', source.sent, list(bytearray(d['r.sub.input'])) if 'r.sub.input' in d else [])
+
+
 def bytes_deviations(thorough, chunk_report=None):
     """every bytes machine of BYTES_RES on every string over BYTES_ALPHA (whole, and at every 2-way chunking where the whole run
     is right) -> (regex, input, machine result, standard semantics) for every run"""
@@ -274,6 +298,13 @@ def bytes_deviations(thorough, chunk_report=None):
             else:
                 mo = ('nonterminal',)
             rows.append((rx, s, whole, mo))
+            if whole == mo and chunk_report is not None and whole[0] == 'ok' and len(s) <= 2:
+                # the same expression built with a data context of its own for the symbols (regex_context): the consumed bytes - every
+                # byte of every multi-byte symbol - are stored there
+                sub = impl_regex_sub(rx, enc)
+                if sub != whole:
+                    chunk_report(dict(regex=rx, input=s, regex_context='sub', plain=repr(whole), with_regex_context=repr(sub)),
+                                 'a bytes machine built with regex_context stores something else than the bytes it consumed')
             if whole == mo and chunk_report is not None:
                 for k in range(1, len(enc)):
                     ch = impl_regex(rx, s, bytes_mode=True, chunks=[enc[:k], enc[k:]])
